@@ -27,12 +27,16 @@ RULE = ("state type in {positive, complex, mixed} x nv 1..3 (thorough 1..4) x nh
         "NLL with sample multisets (repeats) without bases and with per-sample bases incl. all-Z rows, single-basis and "
         "mixed batches; all of it for all three state types (PositiveWaveFunction rotates with the default dictionary); targets "
         "also passed as target= / deprecated target_psi= / target_rho= keywords; bases as list / tuple / numpy array; basis-state "
-        "and GHZ-like targets (exact zeros and ones); a case is (fn, state, shape, parameter draw, call form, target/bases/samples); non-trivial := "
+        "and GHZ-like targets (exact zeros and ones); KL(bases=None) also with the other kind of target (matrix for a wavefunction "
+        "state, vector for a mixed state); `space` as a row permutation of the basis with the target in that ordering (fidelity, "
+        "KL(bases=None), NLL); bases lists with repeated entries; per state a same-object history (all metrics evaluated, then a tiny "
+        "fit or an in-place parameter change, then the metrics and MetricEvaluator.on_epoch_end again); one peaked (|bias| 20..30) draw "
+        "per shape in every tier; a fixed seed-independent block of all these regimes runs first; a case is (fn, state, shape, parameter draw, call form, target/bases/samples); non-trivial := "
         "non-real target or a basis containing Y or a mixed batch of bases")
 ASSUMPTIONS = [
     "np.linalg.eigvals returns the spectrum of its argument (mixed-state fidelity: eigenvalue oracle of the model)",
     "probs_to_logits clamps to [eps, 1-eps]; the real-number theorems assume probabilities inside that range; "
-    "oracle comparisons are skipped (correspondence kept) when a model probability is below 1e-13",
+    "oracle comparisons are skipped (correspondence kept) when a model probability is below 1e-14",
     "mixed-state fidelity = Uhlmann fidelity and in [0,1] is correspondence/oracle-tested only (no Coq theorem)",
     "the KL/NLL theorems cover probabilities in [2^-52, 1-2^-52] (plus exactly-zero target probabilities); basis-state / "
     "GHZ-like targets (probabilities exactly 0 or 1) are generated here and held to the numpy oracle (0 ln 0 = 0)",
@@ -45,7 +49,7 @@ S2 = 1.0 / math.sqrt(2.0)
 U1 = {"X": np.array([[1, 1], [1, -1]], dtype=complex) * S2,
       "Y": np.array([[1, -1j], [1, 1j]], dtype=complex) * S2,
       "Z": np.eye(2, dtype=complex)}
-PMIN = 1e-13          # below this a probability may be clamped by probs_to_logits: oracle skipped
+PMIN = 1e-14          # probs_to_logits clamps below 2.2e-16: the oracle is skipped below 1e-14 (counted)
 
 
 # ------------------------------------------------------------------ numpy oracle
@@ -123,15 +127,71 @@ def is_plain_number(r):
 
 
 # ------------------------------------------------------------------ states
-def new_state_case(ctx, kind, nv, nh, na):
+def new_state_case(ctx, kind, nv, nh, na, large_bias=False):
     if kind == "positive":
         s, am = gen.make_positive(ctx, nv, nh); ph = None
     elif kind == "complex":
         s, am, ph = gen.make_complex(ctx, nv, nh)
     else:
         s, am, ph = gen.make_dm(ctx, nv, nh, na)
-    return {"state": kind, "nv": nv, "nh": nh, "na": na if kind == "mixed" else None,
-            "am": gen.plist(*am), "ph": gen.plist(*ph) if ph is not None else None}
+    am = gen.plist(*am)
+    if large_bias:
+        # peaked state: one visible bias of magnitude 20..30 -> Born probabilities down to ~1e-13 (still far above the clamp)
+        vb = am[2] if kind == "mixed" else am[1]
+        vb[int(ctx.rng.integers(nv))] = float(ctx.rng.choice([-1.0, 1.0]) * ctx.rng.uniform(20.0, 30.0))
+    return {"state": kind, "nv": nv, "nh": nh, "na": na if kind == "mixed" else None, "large_bias": bool(large_bias),
+            "am": am, "ph": gen.plist(*ph) if ph is not None else None}
+
+
+def set_params(s, case):
+    """write the parameters of [case] into the live object IN PLACE (same state object, same nn.Parameters)"""
+    am = [np.array(x, dtype=float) for x in case["am"]]
+    ph = [np.array(x, dtype=float) for x in case["ph"]] if case.get("ph") else None
+    if case["state"] == "mixed":
+        gen.set_prbm(s.rbm_am, *am); gen.set_prbm(s.rbm_ph, *ph)
+    else:
+        gen.set_brbm(s.rbm_am, *am)
+        if ph is not None:
+            gen.set_brbm(s.rbm_ph, *ph)
+
+
+def read_params(s, kind):
+    g = lambda x: x.detach().cpu().numpy().astype(float).tolist()
+    def one(r):
+        if kind == "mixed":
+            return [g(r.weights_W), g(r.weights_U), g(r.visible_bias), g(r.hidden_bias), g(r.aux_bias)]
+        return [g(r.weights), g(r.visible_bias), g(r.hidden_bias)]
+    return one(s.rbm_am), (one(s.rbm_ph) if kind != "positive" else None)
+
+
+def warm_up(s, kind):
+    """history: every metric is evaluated once on the object BEFORE its parameters change"""
+    import torch
+    from qucumber.utils import training_statistics as ts
+    tab = Tab(s, kind)
+    t = c2t(tab.own)
+    nv = tab.sp.shape[1]
+    b = ["X" * nv, "Z" * nv]
+    smp = tab.space[[0, len(tab.sp) - 1]]
+    try:
+        ts.fidelity(s, t, tab.space); ts.fidelity(s, t)
+        ts.KL(s, t, tab.space); ts.KL(s, t, tab.space, bases=b); ts.KL(s, t, bases=b)
+        ts.NLL(s, smp, tab.space); ts.NLL(s, smp, tab.space, sample_bases=np.array([list(x) for x in b]))
+    except Exception:
+        pass
+
+
+def make_tab(case):
+    """tables for a case.  With case['prev'] the metric calls go to an OLD object (built with the previous parameters,
+    every metric already evaluated on it, then re-parametrised in place); the tables for model and oracle always come
+    from a FRESH object with the case's parameters."""
+    fresh = build_state(case)
+    if case.get("prev"):
+        old = build_state(dict(case, am=case["prev"]["am"], ph=case["prev"]["ph"]))
+        warm_up(old, case["state"])
+        set_params(old, case)
+        return Tab(fresh, case["state"], s_call=old)
+    return Tab(fresh, case["state"])
 
 
 def build_state(case):
@@ -151,8 +211,8 @@ def build_state(case):
 class Tab:
     """state tables produced by the implementation (inputs of the metric-layer model and of the oracle)"""
 
-    def __init__(self, s, kind):
-        self.s, self.kind = s, kind
+    def __init__(self, s, kind, s_call=None):
+        self.s, self.kind = (s_call if s_call is not None else s), kind        # self.s: the object the metrics are called on
         self.mixed = (kind == "mixed")
         self.space = s.generate_hilbert_space()
         self.sp = self.space.numpy()
@@ -176,22 +236,30 @@ class Tab:
         return bool(np.all(np.isfinite(p)) and self.Z > 0 and np.isfinite(self.Z))
 
 
-def born_target(tab, target, basis):
-    return born_mixed(target, basis) if tab.mixed else born_pure(target, basis)
+def born_target(tmixed, target, basis):
+    return born_mixed(target, basis) if tmixed else born_pure(target, basis)
+
+
+def permuted(a, perm):
+    """target / table in the ordering of space[perm]"""
+    a = np.asarray(a)
+    return a[perm] if a.ndim == 1 else a[np.ix_(perm, perm)]
 
 
 # ------------------------------------------------------------------ targets
-def rand_target(ctx, tab, form):
-    """returns (numpy target, description)"""
+def rand_target(ctx, tab, form, as_matrix=None):
+    """numpy target: a vector, or a density matrix when as_matrix (default: the kind of the state)"""
     rng = ctx.rng
     d = len(tab.sp)
+    if as_matrix is None:
+        as_matrix = tab.mixed
     if form == "self":
         return tab.own.copy()
     if form == "ghz":
         v = np.zeros(d, dtype=complex); v[0] = 1.0; v[d - 1] += np.exp(1j * rng.uniform(0, 2 * np.pi))
         v = v / np.sqrt(np.sum(np.abs(v) ** 2))
-        return np.outer(v, v.conj()) if tab.mixed else v
-    if not tab.mixed:
+        return np.outer(v, v.conj()) if as_matrix else v
+    if not as_matrix:
         if form == "basis":
             t = np.zeros(d, dtype=complex); t[int(rng.integers(d))] = np.exp(1j * rng.uniform(0, 2 * np.pi))
             return t
@@ -231,8 +299,12 @@ def run_fidelity(ctx, case, tab):
     m = ctx.get_model()
     s = tab.s
     t = target_of_case(case, tab)
-    tt = c2t(t)
+    perm = case.get("space_perm")
+    tc = permuted(t, perm) if perm else t                     # target in the ordering of the space handed in
+    tt = c2t(tc)
     space = tab.space if case.get("pass_space", True) else None
+    if perm:
+        space = tab.space[perm]
     kw = case.get("target_kw", "positional")
     if kw == "positional":
         ok, F = ctx.call("fidelity", case, lambda: ts.fidelity(s, tt, space))
@@ -245,7 +317,7 @@ def run_fidelity(ctx, case, tab):
     if not tab.mixed:
         want = float(abs(np.vdot(t, tab.psi)) ** 2 / np.sum(np.abs(tab.psi) ** 2))
         tol = 1e-9
-        r = m.call("c10_fidelity_pure", wire_c(t), wire_c(tab.psi), tab.Z)
+        r = m.call("c10_fidelity_pure", wire_c(tc), wire_c(permuted(tab.psi, perm) if perm else tab.psi), tab.Z)
         ctx.agree("fidelity (pure) vs model", F, r[0], case)
     else:
         want = uhlmann(t, tab.own)
@@ -254,12 +326,13 @@ def run_fidelity(ctx, case, tab):
         lam_min = min(float(np.linalg.eigvalsh((t + t.conj().T) / 2).min()), float(np.linalg.eigvalsh(tab.own).min()))
         tol = 1e-9 if lam_min > 1e-6 else 1e-6
         ctx.count("mixed_fidelity_tol:%g" % tol)
-        M = m.call("c10_fidelity_mixed_matrix", wire_c(t), wire_c(tab.rho), tab.Z)
+        rho_c = permuted(tab.rho, perm) if perm else tab.rho
+        M = m.call("c10_fidelity_mixed_matrix", wire_c(tc), wire_c(rho_c), tab.Z)
         Mc = np.array([[complex(z[0], z[1]) for z in row] for row in M])
         ev = np.linalg.eigvals(Mc)
-        r = m.call("c10_fidelity_mixed", wire_c(t), wire_c(tab.rho), tab.Z, wire_c(ev))
+        r = m.call("c10_fidelity_mixed", wire_c(tc), wire_c(rho_c), tab.Z, wire_c(ev))
         ctx.agree("fidelity (mixed) vs model", F, r[0], case, rtol=1e-7, atol=max(tol, 1e-9) * 10)
-        ctx.agree("matrix handed to eigvals == target @ rho/Z", ser_flat(Mc), ser_flat(t @ (tab.rho / tab.Z)), case)
+        ctx.agree("matrix handed to eigvals == target @ rho/Z", ser_flat(Mc), ser_flat(tc @ (rho_c / tab.Z)), case)
     ctx.agree_exact("fidelity result kind", 0 if is_plain_number(F) else 1, int(r[1]), case)
     what = "fidelity == |<t|psi>|^2/Z" if not tab.mixed else "fidelity == Uhlmann fidelity"
     ctx.require(what, abs(F - want) <= tol + 1e-9 * abs(want), case, {"impl": F, "oracle": want})
@@ -268,7 +341,7 @@ def run_fidelity(ctx, case, tab):
         ctx.require("self-fidelity == 1", abs(F - 1) <= max(tol, 1e-9), case, F)
     if not tab.mixed:
         th = case.get("theta", 0.7)
-        ok, F2 = ctx.call("fidelity (phase-rotated target)", case, lambda: ts.fidelity(s, c2t(np.exp(1j * th) * t), tab.space))
+        ok, F2 = ctx.call("fidelity (phase-rotated target)", case, lambda: ts.fidelity(s, c2t(np.exp(1j * th) * tc), space if perm else tab.space))
         if ok:
             ctx.require("fidelity invariant under a global phase of the target", abs(float(F2) - F) <= 1e-9, case,
                         {"F": F, "F_phase": float(F2), "theta": th})
@@ -290,6 +363,10 @@ def run_kl(ctx, case, tab):
     bases = case.get("bases")
     space = tab.space if case.get("pass_space", True) else None
     nv = case["nv"]
+    tmixed = (np.asarray(t).ndim == 2)   # kind of the TARGET (bases=None accepts either kind for either state type)
+    perm = case.get("space_perm") if form == "none" else None
+    if perm:
+        space = tab.space[perm]
     if form in ("dict", "dict+bases"):
         keys = case["dict_keys"]
         if tab.mixed:
@@ -300,7 +377,7 @@ def run_kl(ctx, case, tab):
         call_bases = bases if form == "dict+bases" else None
         eff_bases = bases if form == "dict+bases" else keys
     else:
-        target_arg = c2t(t)
+        target_arg = c2t(permuted(t, perm) if perm else t)
         call_bases = bases if form == "list" else None
         eff_bases = bases if form == "list" else None
     cont = case.get("bases_container", "list")
@@ -320,10 +397,9 @@ def run_kl(ctx, case, tab):
     # ---- model
     sp = tab.sp
     if eff_bases is None:
-        if tab.mixed:
-            r = m.call("c10_kl_none_mixed", wire_c(t), tab.pr, tab.Z, sp)
-        else:
-            r = m.call("c10_kl_none_pure", wire_c(t), tab.pr, tab.Z, sp)
+        spm = sp[perm] if perm else sp
+        tm = permuted(t, perm) if perm else t
+        r = m.call("c10_kl_none_mixed" if tmixed else "c10_kl_none_pure", wire_c(tm), tab.pr, tab.Z, spm)
     else:
         wb = wire_bases(eff_bases)
         if form in ("dict", "dict+bases"):
@@ -339,7 +415,7 @@ def run_kl(ctx, case, tab):
     # ---- oracle
     obases = eff_bases if eff_bases is not None else ["Z" * nv]
     qs = [tab.born(b) for b in obases]
-    tsb = [born_target(tab, t, b) for b in obases]
+    tsb = [born_target(tmixed, t, b) for b in obases]
     if min(float(q.min()) for q in qs) < PMIN:
         ctx.count("oracle_skipped_clamp:KL")
         return
@@ -362,6 +438,8 @@ def run_nll(ctx, case, tab):
     samples = torch.tensor(samples_l, dtype=torch.double)
     sb = case.get("sample_bases")
     space = tab.space if case.get("pass_space", True) else None
+    if case.get("space_perm"):
+        space = tab.space[case["space_perm"]]
     if sb is None:
         ok, L = ctx.call("NLL", case, lambda: ts.NLL(s, samples, space))
     else:
@@ -425,12 +503,75 @@ def run_evaluator(ctx, case, tab):
                     float(last[name]) == float(d), case, {"metric": name, "recorded": repr(last[name]), "direct": repr(d)})
 
 
-RUNNERS = {"fidelity": run_fidelity, "KL": run_kl, "NLL": run_nll, "evaluator": run_evaluator}
+# ------------------------------------------------------------------ history on ONE evaluator and ONE state object
+def oracle_values(tab, t, bases, samples_l, sb, nv):
+    """numpy values of (fidelity, KL over bases, NLL with per-sample bases) and their tolerances; None = skipped (clamp)"""
+    if tab.mixed:
+        lam_min = min(float(np.linalg.eigvalsh((t + t.conj().T) / 2).min()), float(np.linalg.eigvalsh(tab.own).min()))
+        F = (uhlmann(t, tab.own), 1e-9 if lam_min > 1e-6 else 1e-6)
+    else:
+        F = (float(abs(np.vdot(t, tab.psi)) ** 2 / np.sum(np.abs(tab.psi) ** 2)), 1e-9)
+    qs = [tab.born(b) for b in bases]
+    K = None
+    if min(float(q.min()) for q in qs) >= PMIN:
+        scale = max(1.0, max(float(np.max(np.abs(np.log(q)))) for q in qs))
+        K = (float(np.mean([kl_div(born_target(tab.mixed, t, b), q) for b, q in zip(bases, qs)])), 1e-9 * scale)
+    idx = [int("".join(str(int(x)) for x in row), 2) for row in samples_l]
+    ps = [float(tab.born(sb[i])[k]) for i, k in enumerate(idx)]
+    L = None
+    if min(ps) >= PMIN:
+        w = -float(np.mean(np.log(ps)))
+        L = (w, 1e-9 * max(1.0, abs(w)))
+    return {"F": F, "KL": K, "NLL": L}
+
+
+def run_evaluator_history(ctx, case, tab):
+    """MetricEvaluator.on_epoch_end twice on the same evaluator and the same state object, the parameters changed in
+    place in between: each record must hold the metric of the parameters the state had AT THAT epoch."""
+    import torch
+    from qucumber.utils import training_statistics as ts
+    from qucumber.callbacks import MetricEvaluator
+    kind, nv = case["state"], case["nv"]
+    prev = dict(case, am=case["prev"]["am"], ph=case["prev"]["ph"])
+    tabs = [Tab(build_state(prev), kind), Tab(build_state(case), kind)]          # fresh objects: tables for the oracle
+    t_np = de_c(case["target"])
+    t = c2t(t_np)
+    samples = torch.tensor(case["samples"], dtype=torch.double)
+    sb = case["sample_bases"]
+    sba = np.array([list(b) for b in sb])
+    bases = case["bases"]
+    s = build_state(prev)
+
+    def go():
+        me = MetricEvaluator(1, {"F": ts.fidelity, "KL": ts.KL, "NLL": ts.NLL}, target=t, bases=bases, space=tabs[0].space,
+                             samples=samples, sample_bases=sba)
+        me.on_epoch_end(s, 1)
+        set_params(s, case)
+        me.on_epoch_end(s, 2)
+        return [dict(v) for _, v in me.past_values]
+    ok, recs = ctx.call("MetricEvaluator history", case, go)
+    if not ok:
+        return
+    ctx.require("MetricEvaluator keeps one record per evaluated epoch", len(recs) == 2, case, len(recs))
+    for ep, (rec, tb) in enumerate(zip(recs, tabs), start=1):
+        want = oracle_values(tb, t_np, bases, case["samples"], sb, nv)
+        for name in ("F", "KL", "NLL"):
+            if want[name] is None:
+                ctx.count("oracle_skipped_clamp:evaluator")
+                continue
+            w, tol = want[name]
+            ctx.require("MetricEvaluator record == metric of the state's parameters at that epoch (same object, parameters changed in between)",
+                        is_plain_number(rec[name]) and abs(float(rec[name]) - w) <= tol + 1e-9 * abs(w), case,
+                        {"epoch": ep, "metric": name, "recorded": repr(rec[name]), "oracle": w})
+
+
+RUNNERS = {"fidelity": run_fidelity, "KL": run_kl, "NLL": run_nll, "evaluator": run_evaluator,
+           "evaluator_history": run_evaluator_history}
 
 
 def run_case(ctx, case, tab=None):
     if tab is None:
-        tab = Tab(build_state(case), case["state"])
+        tab = make_tab(case)
     RUNNERS[case["fn"]](ctx, case, tab)
     ctx.traces += 1
 
@@ -460,8 +601,8 @@ def target_forms(tab, thorough, rng):
     return ["self", "real", "basis", "ghz", "complex", "complex"]
 
 
-def cases_for_state(ctx, base, tab):
-    """yield the cases (dicts) exercised on one state"""
+def cases_for_state(ctx, base, tab, lite=False):
+    """yield the cases (dicts) exercised on one state (lite: only the fixed-first block)"""
     rng = ctx.rng
     nv = base["nv"]
     thorough = ctx.thorough
@@ -479,8 +620,45 @@ def cases_for_state(ctx, base, tab):
             if c.get("bases") is not None:
                 c["bases_container"] = ["list", "tuple", "ndarray"][int(rng.integers(3))]
         if form != "self":
-            c["target"] = ser_c(rand_target(ctx, tab, form))
+            c["target"] = ser_c(rand_target(ctx, tab, form, as_matrix=c.pop("as_matrix", None)))
         return c
+
+    d = len(tab.sp)
+
+    def rperm():
+        q = rng.permutation(d).tolist()
+        return q if q != list(range(d)) else q[::-1]
+
+    def repeated(bs):
+        """a bases list with repeated entries (the value is the plain mean over the list as given)"""
+        bs = list(bs) + [bs[int(rng.integers(len(bs)))]]
+        if rng.random() < 0.5:
+            bs = bs + [bs[0]]
+        return [bs[i] for i in rng.permutation(len(bs))]
+
+    rnd_form = "complex" if not tab.mixed else "rank-full"
+    # ---- regimes found unexercised by the red team; they run FIRST on every state
+    # (1) KL(bases=None) with the other kind of target: density matrix for a wavefunction state, vector for a mixed state
+    for form in (["rank-full", "ghz", "rank-1"] if not tab.mixed else ["complex", "ghz", "basis"]):
+        yield with_target({"fn": "KL", "bases_form": "none", "as_matrix": not tab.mixed, "cross_kind": True,
+                           "pass_space": bool(rng.random() < 0.7)}, form)
+    # (2) `space` = a row permutation of the basis, target given in that ordering (fidelity, KL(bases=None), NLL)
+    for form in ("self", rnd_form):
+        yield with_target({"fn": "fidelity", "space_perm": rperm(), "theta": float(rng.uniform(0.1, 6.2))}, form)
+        yield with_target({"fn": "KL", "bases_form": "none", "space_perm": rperm()}, form)
+    yield with_target({"fn": "KL", "bases_form": "none", "space_perm": rperm(), "as_matrix": not tab.mixed, "cross_kind": True},
+                      "rank-full" if not tab.mixed else "complex")
+    yield dict(base, fn="NLL", samples=rand_samples(ctx, nv, 7), sample_bases=None, space_perm=rperm())
+    yield dict(base, fn="NLL", samples=rand_samples(ctx, nv, 7), space_perm=rperm(),
+               sample_bases=[str(b) for b in rng.choice(gen.all_bases(nv), size=7)])
+    # (3) a bases list that names a basis more than once
+    for form in ("self", rnd_form):
+        yield with_target({"fn": "KL", "bases_form": "list", "repeated_bases": True,
+                           "bases": repeated(rand_bases(ctx, nv, int(rng.integers(1, 4)), force_y=True))}, form)
+    keys = rand_bases(ctx, nv, int(rng.integers(1, 4)), force_y=True)
+    yield with_target({"fn": "KL", "bases_form": "dict+bases", "dict_keys": keys, "bases": repeated(keys), "repeated_bases": True}, rnd_form)
+    if lite:
+        return
 
     # fidelity
     for form in forms:
@@ -517,7 +695,68 @@ def cases_for_state(ctx, base, tab):
     yield c
 
 
+def history_cases(ctx, base2, tab2):
+    """cases run on an object whose parameters were changed after every metric had been evaluated on it"""
+    rng = ctx.rng
+    nv = base2["nv"]
+    rnd_form = "complex" if not tab2.mixed else "rank-full"
+
+    def with_target(c, form):
+        c = dict(base2, **c)
+        c["target_form"] = form
+        if form != "self":
+            c["target"] = ser_c(rand_target(ctx, tab2, form))
+        return c
+    for form in ("self", rnd_form):
+        yield with_target({"fn": "fidelity", "theta": float(rng.uniform(0.1, 6.2)), "pass_space": bool(rng.random() < 0.5)}, form)
+        yield with_target({"fn": "KL", "bases_form": "none", "pass_space": bool(rng.random() < 0.5)}, form)
+        yield with_target({"fn": "KL", "bases_form": "list", "bases": rand_bases(ctx, nv, 2, force_y=True)}, form)
+    keys = rand_bases(ctx, nv, 2, force_y=True)
+    yield with_target({"fn": "KL", "bases_form": "dict", "dict_keys": keys}, rnd_form)
+    yield dict(base2, fn="NLL", samples=rand_samples(ctx, nv, 6), sample_bases=None, pass_space=bool(rng.random() < 0.5))
+    yield dict(base2, fn="NLL", samples=rand_samples(ctx, nv, 6), sample_bases=[str(b) for b in rng.choice(gen.all_bases(nv), size=6)])
+    c = with_target({"fn": "evaluator_history", "bases": rand_bases(ctx, nv, 2, force_y=True), "samples": rand_samples(ctx, nv, 5)}, rnd_form)
+    c["sample_bases"] = [str(b) for b in rng.choice(gen.all_bases(nv), size=5)]
+    yield c
+
+
+def change_parameters(ctx, base, s_old):
+    """history step on the SAME object: a tiny fit, or new parameters written in place; returns the new case base"""
+    rng = ctx.rng
+    kind, nv = base["state"], base["nv"]
+    mode = "fit" if rng.random() < 0.3 else "set"
+    new = None
+    if mode == "fit":
+        try:
+            ctx.torch_seed()
+            data = gen.all_states(nv)[rng.integers(0, 2 ** nv, size=6)]
+            kw = dict(epochs=2, pos_batch_size=3, neg_batch_size=3, k=1, lr=0.3)
+            if kind != "positive":
+                # fit needs reference-basis (all-Z) rows for its negative phase: two of the six rows are all-Z
+                kw["input_bases"] = np.array([list("Z" * nv)] * 2 + [list(str(b)) for b in rng.choice(gen.all_bases(nv), size=4)])
+            s_old.fit(data, **kw)
+            am, ph = read_params(s_old, kind)
+            new = dict(base, am=am, ph=ph)
+            if not all(np.all(np.isfinite(np.array(x))) for x in am + (ph or [])):
+                new = None
+        except Exception:
+            new = None
+        if new is None:
+            ctx.count("history_fit_unusable")
+            mode = "set"
+    if new is None:
+        fresh = new_state_case(ctx, kind, nv, base["nh"], base["na"])
+        new = dict(base, am=fresh["am"], ph=fresh["ph"])
+        set_params(s_old, new)
+    new["prev"] = {"am": base["am"], "ph": base["ph"]}
+    new["history"] = mode
+    new["large_bias"] = False if mode == "set" else base.get("large_bias", False)
+    return new
+
+
 def nontrivial(case):
+    if case.get("prev") or case.get("space_perm") or case.get("cross_kind") or case.get("repeated_bases"):
+        return True
     if case["fn"] == "NLL":
         sb = case.get("sample_bases")
         return bool(sb) and (len(set(sb)) > 1 or any("Y" in b for b in sb))
@@ -529,7 +768,8 @@ def nontrivial(case):
 
 
 def describe(case):
-    d = {k: case.get(k) for k in ("fn", "state", "nv", "nh", "na", "target_form", "bases_form", "bases", "dict_keys", "sample_bases", "pass_space", "target_kw", "bases_container")}
+    d = {k: case.get(k) for k in ("fn", "state", "nv", "nh", "na", "target_form", "bases_form", "bases", "dict_keys", "sample_bases", "pass_space", "target_kw", "bases_container",
+                                     "space_perm", "cross_kind", "repeated_bases", "history", "large_bias")}
     d["am00"] = case["am"][0][0][0]
     if case.get("samples") is not None:
         d["n_samples"] = len(case["samples"])
@@ -548,41 +788,75 @@ def shapes(ctx):
             "mixed": [(1, 2, 1), (2, 1, 2), (2, 3, 2), (3, 2, 3)]}
 
 
-def one_state(ctx, kind, shape):
+def register(ctx, case, kind, nv):
+    ctx.case(describe(case), nontrivial=nontrivial(case))
+    ctx.count("fn:" + case["fn"]); ctx.count("state:" + kind); ctx.count("nv:%d" % nv)
+    for key in ("bases_form", "target_form", "target_kw", "bases_container", "history"):
+        if case.get(key):
+            ctx.count(key + ":" + str(case[key]))
+    for key in ("space_perm", "cross_kind", "repeated_bases", "large_bias"):
+        if case.get(key):
+            ctx.count(key)
+    allb = (case.get("bases") or []) + (case.get("dict_keys") or []) + (case.get("sample_bases") or [])
+    if kind == "positive" and any(ch != "Z" for b in allb for ch in b):
+        ctx.count("positive_state_rotated_basis")
+    if any("Y" in b for b in allb):
+        ctx.count("has_Y")
+
+
+def one_state(ctx, kind, shape, large_bias=False, lite=False):
     nv, nh = shape[0], shape[1]
     na = shape[2] if kind == "mixed" else None
     ctx.torch_seed()
-    base = new_state_case(ctx, kind, nv, nh, na)
+    base = new_state_case(ctx, kind, nv, nh, na, large_bias=large_bias)
     ok, tab = ctx.call("state tables", base, lambda: Tab(build_state(base), kind))
     if not ok:
         return
     if not tab.well_conditioned():
         ctx.count("skipped_overflow")
         return
-    for case in cases_for_state(ctx, base, tab):
-        ctx.case(describe(case), nontrivial=nontrivial(case))
-        ctx.count("fn:" + case["fn"]); ctx.count("state:" + kind); ctx.count("nv:%d" % nv)
-        if case.get("bases_form"):
-            ctx.count("bases_form:" + case["bases_form"])
-        if case.get("target_form"):
-            ctx.count("target_form:" + case["target_form"])
-        if case.get("target_kw"):
-            ctx.count("target_kw:" + case["target_kw"])
-        if case.get("bases_container"):
-            ctx.count("bases_container:" + case["bases_container"])
-        if kind == "positive" and any(ch != "Z" for b in (case.get("bases") or []) + (case.get("dict_keys") or []) + (case.get("sample_bases") or []) for ch in b):
-            ctx.count("positive_state_rotated_basis")
-        if any("Y" in b for b in (case.get("bases") or []) + (case.get("dict_keys") or []) + (case.get("sample_bases") or [])):
-            ctx.count("has_Y")
+    for case in cases_for_state(ctx, base, tab, lite=lite):
+        register(ctx, case, kind, nv)
         run_case(ctx, case, tab)
+    # ---- history on the SAME object: every metric has been evaluated on tab.s above; now its parameters change
+    #      (tiny fit or in-place overwrite) and the metrics are asked again.  Tables for model/oracle: a fresh object.
+    s_old = tab.s
+    base2 = change_parameters(ctx, base, s_old)
+    ok, tab2 = ctx.call("state tables", base2, lambda: Tab(build_state(base2), kind, s_call=s_old))
+    if not ok:
+        return
+    if not tab2.well_conditioned():
+        ctx.count("skipped_overflow")
+        return
+    for case in history_cases(ctx, base2, tab2):
+        register(ctx, case, kind, nv)
+        run_case(ctx, case, tab2)
+
+
+FIXED_FIRST = [("positive", (2, 3)), ("complex", (2, 2)), ("mixed", (2, 2, 2)), ("complex", (3, 2)), ("mixed", (1, 2, 1))]
+
+
+def fixed_first(ctx):
+    """a fixed block (independent of VERIF_SEED) that always runs first: for every state type the regimes
+    cross-kind KL(bases=None), permuted space, repeated bases, same-object history, peaked (large-bias) states"""
+    saved = ctx.rng
+    ctx.rng = np.random.Generator(np.random.PCG64(20261001))
+    try:
+        for kind, shape in FIXED_FIRST:
+            one_state(ctx, kind, shape, large_bias=False, lite=True)
+            one_state(ctx, kind, shape, large_bias=True, lite=True)
+    finally:
+        ctx.rng = saved
 
 
 def run(ctx):
-    draws = 12 if ctx.thorough else 3
+    fixed_first(ctx)
+    draws = 11 if ctx.thorough else 1
     for kind, shs in shapes(ctx).items():
         for shape in shs:
             for _ in range(draws):
                 one_state(ctx, kind, shape)
+            one_state(ctx, kind, shape, large_bias=True)          # peaked regime: one draw per shape in EVERY tier
 
 
 def search(ctx, broken, budget):
